@@ -375,7 +375,7 @@ func Execute(f *Family, sc *work.Scratch, tag string, units []*Unit, pack int) (
 			schema = s
 			exs = append(exs, &Exec{Unit: u, ProgID: p.id, Slot: 0})
 		} else {
-			var props, defs []string
+			var props, defs, ldefs []string
 			for slot, u := range p.units {
 				ren := func(n string) string { return fmt.Sprintf("%s_%d", n, slot) }
 				m := u.Raw["schema"]
@@ -393,11 +393,23 @@ func Execute(f *Family, sc *work.Scratch, tag string, units []*Unit, pack int) (
 					}
 					defs = append(defs, fmt.Sprintf("%q:%s", ren(abs.Key(em["k"])), ds))
 				}
+				ll, _ := u.Raw["ldefs"].([]any) // entries of the legacy `definitions` block
+				for _, e := range ll {
+					em, _ := e.(map[string]any)
+					ds, err := abs.Schema(em["s"], ren)
+					if err != nil {
+						return nil, err
+					}
+					ldefs = append(ldefs, fmt.Sprintf("%q:%s", ren(abs.Key(em["k"])), ds))
+				}
 				exs = append(exs, &Exec{Unit: u, ProgID: p.id, Slot: slot, Packed: true})
 			}
 			schema = `{"type":"object","properties":{` + strings.Join(props, ",") + `}`
 			if len(defs) > 0 {
 				schema += `,"$defs":{` + strings.Join(defs, ",") + `}`
+			}
+			if len(ldefs) > 0 {
+				schema += `,"definitions":{` + strings.Join(ldefs, ",") + `}`
 			}
 			schema += "}"
 		}
